@@ -21,6 +21,7 @@ import KiraModel.Exec.SuiteStorage
 import KiraModel.Exec.SuiteLife
 import KiraModel.Exec.SuiteDeliver
 import KiraModel.Exec.SuiteStream
+import KiraModel.Exec.SuiteSysCore
 
 open K.Exec K.Exec.Clock K.Exec.Wav K.Exec.FxA K.Exec.FxB K.Exec.FxRate K.Exec.Mix
 
@@ -59,6 +60,7 @@ def suiteOf (name : String) : Option Suite :=
   | "life" => some { σ := LifeState, init := {}, step := withSeq lifeStep }
   | "deliver" => some { σ := DeliverState, init := {}, step := withSeq deliverStep }
   | "stream" | "decthread" => some { σ := K.Exec.Strm.StrmState, init := {}, step := K.Exec.Strm.strmStep }
+  | "syscore" => some { σ := K.Exec.SysCore.SCState, init := {}, step := K.Exec.SysCore.scStep }
   | _ => none
 
 def tokens (line : String) : List String :=
